@@ -21,14 +21,14 @@ RULE = ("sidecars = every choice of 2-4 columns from the kind menu (plain catego
         "categorical / value templates with a reference at each of 11 structural positions (one with the same reference twice) and two-reference templates, "
         "referring to a categorical column, a value column or HED) ; tables = the full cross product of the per-column cell "
         "alphabets {each key, n/a, unknown key, value, value with backslash escapes, value with '#', empty} as rows, in 2-3 column orders and 2 row orders; histories of "
-        "length <= 3 over {assemble, series_a, dataframe_a, validate}.  distinct case = (sidecar, row); non-trivial = row with "
+        "length <= 3 over {assemble, assemble(skip_curly_braces), series_a, dataframe_a, validate}, every answer compared with a fresh object's.  distinct case = (sidecar, row); non-trivial = row with "
         "a reference whose target is n/a / unselected, or with >= 2 contributing columns; state = (sidecar signature, history); "
         "transition = one assembly call on the implementation")
 ASSUMPTIONS = [
     "tables enter through the TSV text path (empty cells become n/a there), as real events files do",
     "'union' is compared as a multiset of top-level items, each item canonical up to nothing (order inside items kept)",
-    "a change of column dtype of the input frame (object -> category) is recorded as an observation, not judged; cell text, "
-    "labels and row order are judged",
+    "a change of column dtype of the input frame is counted (observed_dtype_drift) and judged through its effect: an edit "
+    "of a cell after an assembly must work as on a fresh table; cell text, labels and row order are judged directly",
 ]
 
 REF_POSITIONS = ["{R}", "Circle, {R}", "({R}), (Circle, {R})", "{R}, Circle", "(Circle, {R})", "({R}, Circle)", "(({R}), Circle)", "Circle, ({R})",
@@ -284,20 +284,44 @@ def check_case(env, rec, label, sidecar, spec, alpha, thorough):
                     continue
                 rec.outcome("ok:" + ("empty" if not got else "nonempty"))
             # histories: same answer every time, nothing changed
-            for hist in itertools.product(("assemble", "series_a", "dataframe_a", "validate"), repeat=2 if not thorough else 3):
+            def observe(obj, op):
+                if op == "assemble":
+                    return frame_snapshot(obj.assemble())
+                if op == "assemble_skip":
+                    return frame_snapshot(obj.assemble(skip_curly_braces=True))
+                if op == "series_a":
+                    return list(obj.series_a)
+                if op == "dataframe_a":
+                    return frame_snapshot(obj.dataframe_a)
+                return sorted(i["code"] for i in obj.validate(env.schema))
+            hist_ops = ("assemble", "assemble_skip", "series_a", "dataframe_a", "validate")
+            fresh_answers = None
+            for hist in itertools.product(hist_ops, repeat=2 if not thorough else 3):
                 if rev or co is not orders[0]:
                     break
                 try:
-                    for op in hist:
-                        if op == "assemble":
-                            ti.assemble()
-                        elif op == "series_a":
-                            ti.series_a
-                        elif op == "dataframe_a":
-                            ti.dataframe_a
-                        else:
-                            ti.validate(env.schema)
-                    again = list(ti.series_a)
+                    if fresh_answers is None:
+                        fresh_answers = {op: observe(TabularInput(io.StringIO(tsv), sidecar=Sidecar(io.StringIO(js))), op)
+                                         for op in hist_ops}
+                    obj = TabularInput(io.StringIO(tsv), sidecar=Sidecar(io.StringIO(js)))
+                    handed_out = []
+                    for step, op in enumerate(hist):
+                        got = observe(obj, op)
+                        if got != fresh_answers[op]:
+                            rec.violation(f"C06:answer-depends-on-earlier-calls:{op}", sidecar=js, history=hist, step=step,
+                                          fresh=str(fresh_answers[op])[:300], got=str(got)[:300])
+                            raise StopIteration
+                        if op in ("assemble", "assemble_skip", "dataframe_a"):
+                            handed_out.append((op, getattr(obj, "dataframe_a") if op == "dataframe_a" else
+                                               (obj.assemble(skip_curly_braces=(op == "assemble_skip")))))
+                    again = list(obj.series_a)
+                    # frames handed out earlier are the caller's: later calls do not rewrite them
+                    for op, frame in handed_out:
+                        if frame_snapshot(frame) != fresh_answers[op]:
+                            rec.violation(f"C06:handed-out-frame-rewritten-by-later-call:{op}", sidecar=js, history=hist)
+                            raise StopIteration
+                except StopIteration:
+                    break
                 except Exception as e:
                     rec.violation(f"C06:history-raises:{type(e).__name__}", sidecar=js, history=hist, error=repr(e)[:200])
                     break
@@ -308,6 +332,9 @@ def check_case(env, rec, label, sidecar, spec, alpha, thorough):
                                   first=[a for a, b in zip(ser, again) if a != b][:2],
                                   later=[b for a, b in zip(ser, again) if a != b][:2])
                     break
+            # a cell edited after an assembly: the next assembly is that of the edited table
+            if not rev and co is orders[0]:
+                edit_after_assembly(env, rec, ti, alpha, tsv, js)
             if frame_snapshot(ti.dataframe) != frame_before:
                 rec.violation("C06:table-changed-by-assembly", sidecar=js, table=tsv[:200])
             if sc.loaded_dict != side_before:
@@ -315,6 +342,37 @@ def check_case(env, rec, label, sidecar, spec, alpha, thorough):
             if [str(t) for t in ti.dataframe.dtypes] != dtypes_before:
                 rec.n("observed_dtype_drift")
     rec.state((label, "base"))
+
+
+def edit_after_assembly(env, rec, ti, alpha, tsv, js):
+    from hed.models.tabular_input import TabularInput
+    from hed.models.sidecar import Sidecar
+    from hed.models.hed_string import HedString
+    for ci_, cname in enumerate(list(ti.dataframe.columns)):
+        if cname not in alpha or len(alpha[cname]) < 2:
+            continue
+        other = alpha[cname][1] if str(ti.dataframe.iloc[0, ci_]) != alpha[cname][1] else alpha[cname][0]
+        for new_cell in (other, "brandnew"):
+            try:
+                a = TabularInput(io.StringIO(tsv), sidecar=Sidecar(io.StringIO(js)))
+                b = TabularInput(io.StringIO(tsv), sidecar=Sidecar(io.StringIO(js)))
+                b.set_cell(0, ci_, HedString(new_cell, env.schema))
+                rb = list(b.series_a)
+            except Exception:
+                continue        # the edit itself is not possible on a fresh table: nothing to compare
+            try:
+                list(a.series_a)
+                a.set_cell(0, ci_, HedString(new_cell, env.schema))
+                ra = list(a.series_a)
+            except Exception as e:
+                rec.violation(f"C06:edit-after-assembly-raises:{type(e).__name__}", sidecar=js, column=cname,
+                              new_cell=new_cell, error=repr(e)[:200])
+                return
+            rec.n("transitions", 4)
+            if ra != rb:
+                rec.violation("C06:assembly-after-edit-differs-from-fresh-edited-table", sidecar=js, column=cname,
+                              new_cell=new_cell, got=ra[0], expected=rb[0])
+                return
 
 
 def cls(label, spec, row):
